@@ -34,6 +34,32 @@ def T(x):
     return x
 
 
+REPS = ["RString", "RBytes", "ROffsetString", "RCharArray", "REmptyString", "REmptyBytes"]
+ACCEPTED = {"RString": "string", "ROffsetString": "string", "RBytes": "bytes"}
+
+
+def qparts(e):
+    """("quote", rep, body); old replay files have ("quote", body)"""
+    if len(e) == 2:
+        return "RString", e[1]
+    return e[1], e[2]
+
+
+def Q(e, rep="RString"):
+    return ("quote", rep, e)
+
+
+def pick_rep(rng):
+    r = rng.random()
+    if r < 0.5:
+        return "RString"
+    if r < 0.78:
+        return "RBytes"
+    if r < 0.9:
+        return "ROffsetString"
+    return rng.choice(["RCharArray", "REmptyString", "REmptyBytes"])
+
+
 def arrai(e):
     k = e[0]
     if k == "data":
@@ -53,7 +79,22 @@ def arrai(e):
     if k == "let":
         return "(let %s = %s; %s)" % (e[1], arrai(e[2]), arrai(e[3]))
     if k == "quote":
-        return '"' + arrai(e[1]).replace("\\", "\\\\").replace('"', '\\"') + '"'
+        rep, body = qparts(e)
+        text = arrai(body)
+        lit = '"' + text.replace("\\", "\\\\").replace('"', '\\"') + '"'
+        if rep == "RString":
+            return lit
+        if rep == "RBytes":
+            return "<<" + lit + ">>"
+        if rep == "ROffsetString":
+            return "1\\" + lit
+        if rep == "RCharArray":
+            return "[" + ", ".join(str(ord(ch)) for ch in text) + "]"
+        if rep == "REmptyString":
+            return '""'
+        if rep == "REmptyBytes":
+            return "<<>>"
+        raise ValueError(rep)
     if k == "imp":
         return "//{./%s}" % e[1]
     if k == "rimp":
@@ -92,7 +133,8 @@ def coq(e):
     if k == "let":
         return "(ELet %s %s %s)" % (cstr(e[1]), coq(e[2]), coq(e[3]))
     if k == "quote":
-        return "(EQuote %s)" % coq(e[1])
+        rep, body = qparts(e)
+        return "(EQuote %s %s)" % (rep, coq(body))
     if k == "imp":
         return "(EImport (TLocal %s))" % cstr(e[1])
     if k == "rimp":
@@ -166,13 +208,13 @@ def wrap(rng, e, depth, closed):
     """one semantics-preserving or sandbox-entering step around e"""
     r = rng.randrange(15)
     if r == 0:
-        return ("app", EV_EVAL, ("quote", e))
+        return ("app", EV_EVAL, Q(e, pick_rep(rng)))
     if r == 1:
-        return ("app", EV_VALUE, ("quote", e))
+        return ("app", EV_VALUE, Q(e, pick_rep(rng)))
     if r == 2:
-        return ("app", evaluator(gen_cfg(rng)), ("quote", e))
+        return ("app", evaluator(gen_cfg(rng)), Q(e, pick_rep(rng)))
     if r == 3:
-        return ("app", evaluator(tup()), ("quote", e))
+        return ("app", evaluator(tup()), Q(e, pick_rep(rng)))
     if r == 4 and closed:
         return ("macro", e)
     if r == 5:
@@ -188,7 +230,7 @@ def wrap(rng, e, depth, closed):
     if r == 10:
         return tup(("a", e), ("b", rng.choice(TARGETS)))
     if r == 11:
-        return ("app", std("std", "safe", "eval", "eval"), ("quote", e))
+        return ("app", std("std", "safe", "eval", "eval"), Q(e, pick_rep(rng)))
     if r == 12:
         return ("let", "z", rng.choice(TARGETS), e)
     if r == 13:
@@ -236,11 +278,11 @@ def gen_random(rng, d, names):
     if r == 5:
         return ("let", rng.choice(VARS), sub(), sub())
     if r == 6:
-        return ("app", rng.choice([EV_EVAL, EV_VALUE, evaluator(gen_cfg(rng)), sub()]), ("quote", sub()))
+        return ("app", rng.choice([EV_EVAL, EV_VALUE, evaluator(gen_cfg(rng)), sub()]), Q(sub(), pick_rep(rng)))
     if r == 7:
         return ("macro", gen_random(rng, d - 1, []))
     if r == 8:
-        return ("quote", sub())
+        return Q(sub(), pick_rep(rng))
     if r == 9:
         return ("app", ("fn", rng.choice(VARS), sub()), sub())
     return sub()
@@ -276,6 +318,12 @@ def corpus():
     c.append(("top", tup(("stdlib", tup())), ("imp", "secret"), "sandbox-local-import"))
     c.append(("top", tup(("stdlib", tup())), ("rimp",), "sandbox-remote-import"))
     c.append(("top", tup(("stdlib", tup())), ("macro", osf), "macro-full-scope"))
+    # source handed over as a byte array / offset string (a seeded defect split evalExpr's case arm)
+    c.append(("safe", tup(), ("app", EV_VALUE, Q(osf, "RBytes")), None))
+    c.append(("safe", tup(), ("app", EV_EVAL, Q(("app", EV_VALUE, Q(osf, "RBytes")))), None))
+    c.append(("top", tup(("stdlib", tup(("eval", std("eval"))))), ("app", EV_VALUE, Q(std("net", "http", "get"), "RBytes")), None))
+    c.append(("safe", tup(), ("app", EV_EVAL, Q(osf, "RBytes")), None))
+    c.append(("safe", tup(), ("app", EV_VALUE, Q(osf, "ROffsetString")), None))
     # further minimised routes
     c.append(("top", tup(), ("app", EV_VALUE, ("quote", osf)), None))
     c.append(("safe", tup(), ("imp", "lib"), None))
@@ -303,27 +351,121 @@ def corpus():
     return c
 
 
+# ---- the `case` arms of the sandbox entry points, enumerated (quick tier included) ----
+# evalExpr / contextualEval: type switch on the source argument  -> REPS
+# parseEvalConfig / contextualEval: config is / is not a tuple; stdlib absent / () / a tuple / not a tuple;
+#                                   scope absent / () / a tuple / not a tuple
+CFG_ARMS = [
+    ("cfg=()", tup()),
+    ("stdlib=()", tup(("stdlib", tup()))),
+    ("stdlib=tuple", tup(("stdlib", tup(("eval", std("eval")), ("str", std("str")))))),
+    ("stdlib=not-a-tuple", tup(("stdlib", DATA))),
+    ("scope=()", tup(("scope", tup()))),
+    ("scope=tuple", tup(("scope", tup(("f", std("str", "lower")), ("g", ("fn", "x", ("var", "x"))))))),
+    ("scope=not-a-tuple", tup(("scope", DATA))),
+    ("stdlib+scope", tup(("stdlib", tup(("eval", std("eval")))), ("scope", tup(("v", DATA))))),
+    ("stdlib=()+scope", tup(("stdlib", tup()), ("scope", tup(("ev", std("eval", "eval")), ("evv", std("eval", "value")))))),
+    ("cfg=not-a-tuple", DATA),
+]
+ARM_TARGETS = [std("os", "file"), std("net", "http", "get"), std("str", "lower"), ("app", std("os", "file"), DATA)]
+
+
+def arm_cases():
+    out = []
+    entries = [("eval.value", lambda q: ("app", EV_VALUE, q)), ("eval.eval", lambda q: ("app", EV_EVAL, q)),
+               ("std.safe.eval.value", lambda q: ("app", std("std", "safe", "eval", "value"), q))]
+    for name, cfg in CFG_ARMS:
+        entries.append(("evaluator[%s]" % name, (lambda cfg: lambda q: ("app", evaluator(cfg), q))(cfg)))
+    for ename, entry in entries:
+        for rep in REPS:
+            for t in ARM_TARGETS:
+                inner = entry(Q(t, rep))
+                # reached directly from the safe scope, and from inside a string handed to //eval.eval
+                out.append({"mode": "safe", "cfg": tup(), "src": inner, "stream": "arms"})
+                out.append({"mode": "safe", "cfg": tup(), "src": ("app", EV_EVAL, Q(inner)), "stream": "arms"})
+    # the same arms for the top-level entry (mode top): configuration arm x representation of the main source
+    for name, cfg in CFG_ARMS:
+        for rep in REPS:
+            for t in ARM_TARGETS[:3] + [("app", std("eval", "value"), Q(std("os", "file"), "RBytes")), ("var", "ev"), ("app", ("var", "evv"), Q(std("net"), "RBytes"))]:
+                out.append({"mode": "top", "cfg": cfg, "src": t, "rep": rep, "stream": "arms"})
+    return out
+
+
+def arms_of(c):
+    """the (entry point, representation) and configuration arms a case exercises"""
+    hit = set()
+
+    def cfg_arm(cfg):
+        if cfg[0] != "tup":
+            return ["cfg:not-a-tuple"]
+        d = dict(cfg[1])
+        a = []
+        for k in ("stdlib", "scope"):
+            if k not in d:
+                a.append(k + ":absent")
+            elif d[k][0] == "tup":
+                a.append(k + (":()" if not d[k][1] else ":tuple"))
+            elif d[k][0] == "std":
+                a.append(k + ":tuple")
+            else:
+                a.append(k + ":not-a-tuple")
+        return a
+
+    def walk(e):
+        if not isinstance(e, tuple) or not e or not isinstance(e[0], str):
+            return
+        if e[0] == "app" and isinstance(e[2], tuple) and e[2] and e[2][0] == "quote":
+            f = e[1]
+            rep = qparts(e[2])[0]
+            if f[0] == "std" and f[1][-2:] == ("eval", "value"):
+                hit.add("evalExpr:" + rep)
+            elif f[0] == "std" and f[1][-2:] == ("eval", "eval"):
+                hit.add("contextualEval:" + rep)
+            elif f[0] == "dot" and f[2] == "eval" and f[1][0] == "app":
+                hit.add("contextualEval:" + rep)
+                for a in cfg_arm(f[1][2]):
+                    hit.add(a)
+        if e[0] == "tup":
+            for _, x in e[1]:
+                walk(x)
+        else:
+            for x in e[1:]:
+                walk(x)
+    walk(c["src"])
+    if c["mode"] == "top":
+        hit.add("contextualEval:" + c.get("rep", "RString"))
+        for a in cfg_arm(c["cfg"]):
+            hit.add(a)
+    return hit
+
+
+REQUIRED_ARMS = ["evalExpr:" + r for r in REPS] + ["contextualEval:" + r for r in REPS] + \
+    ["cfg:not-a-tuple"] + [k + a for k in ("stdlib", "scope") for a in (":absent", ":()", ":tuple", ":not-a-tuple")]
+
+
 def gen_cases(rng, tier):
     cases = []
     for mode, cfg, src, sig in corpus():
         cases.append({"mode": mode, "cfg": cfg, "src": src, "stream": "corpus", "witness_of": sig})
+    cases.extend(arm_cases())
     n_struct, n_rand = (700, 300) if tier == "quick" else (7000, 3000)
     for i in range(n_struct):
         mode = "safe" if rng.random() < 0.5 else "top"
         cfg = tup() if mode == "safe" else gen_cfg(rng)
         src = gen_structured(rng, scope_names(cfg))
-        cases.append({"mode": mode, "cfg": cfg, "src": src, "stream": "structured"})
+        cases.append({"mode": mode, "cfg": cfg, "src": src, "rep": pick_rep(rng), "stream": "structured"})
     for i in range(n_rand):
         mode = "safe" if rng.random() < 0.5 else "top"
         cfg = tup() if mode == "safe" else gen_cfg(rng)
         src = gen_random(rng, rng.choice([2, 3, 3, 4]), scope_names(cfg))
-        cases.append({"mode": mode, "cfg": cfg, "src": src, "stream": "random"})
+        cases.append({"mode": mode, "cfg": cfg, "src": src, "rep": pick_rep(rng), "stream": "random"})
     if tier == "thorough":
         # exhaustive small scope: every target x every pair of wrappers from a fixed list, both modes
-        W = [lambda e: e, lambda e: ("app", EV_EVAL, ("quote", e)), lambda e: ("app", EV_VALUE, ("quote", e)),
-             lambda e: ("app", evaluator(tup(("stdlib", tup()))), ("quote", e)), lambda e: ("macro", e),
+        W = [lambda e: e, lambda e: ("app", EV_EVAL, Q(e)), lambda e: ("app", EV_VALUE, Q(e)),
+             lambda e: ("app", EV_EVAL, Q(e, "RBytes")), lambda e: ("app", EV_VALUE, Q(e, "RBytes")),
+             lambda e: ("app", evaluator(tup(("stdlib", tup()))), Q(e)), lambda e: ("macro", e),
              lambda e: ("fn", "y", e), lambda e: ("app", e, DATA), lambda e: ("dot", tup(("a", e)), "a"),
-             lambda e: ("app", evaluator(tup(("stdlib", tup(("eval", std("eval")), ("os", std("os")))))), ("quote", e))]
+             lambda e: ("app", evaluator(tup(("stdlib", tup(("eval", std("eval")), ("os", std("os")))))), Q(e, "RBytes"))]
         seen = set()
         for t in TARGETS:
             for w1 in W:
@@ -347,7 +489,7 @@ def gen_cases(rng, tier):
 def source_text(c):
     if c["mode"] == "safe":
         return arrai(c["src"])
-    return "(%s)(%s)" % (arrai(evaluator(c["cfg"])), arrai(("quote", c["src"])))
+    return "(%s)(%s)" % (arrai(evaluator(c["cfg"])), arrai(Q(c["src"], c.get("rep") or "RString")))
 
 
 # ---------------------------------------------------------------- observation -> Coq
@@ -382,7 +524,7 @@ def qcur_term(run):
     return "{| " + "; ".join(fields) + " |}"
 
 
-def run_cases(run, vh, cases, shard=400):
+def run_cases(run, vh, cases, shard=250):
     outs, rc, err = run_harness(vh, "c18", [{"id": c["id"], "mode": c["mode"], "src": source_text(c)} for c in cases],
                                 timeout=1500)
     import concurrent.futures
@@ -399,8 +541,8 @@ def run_cases(run, vh, cases, shard=400):
         rows = []
         for c in chunk:
             st, ct, et, _, _ = obs_terms(outs.get(c["id"]))
-            rows.append("  {| c_id := %d; c_safe := %s; c_cfg := %s; c_src := %s; c_st := %d; c_cls := %s; c_eff := %s |}" % (
-                c["id"], cbool(c["mode"] == "safe"), coq(c["cfg"]), coq(c["src"]), st, ct, et))
+            rows.append("  {| c_id := %d; c_safe := %s; c_cfg := %s; c_src := %s; c_rep := %s; c_st := %d; c_cls := %s; c_eff := %s |}" % (
+                c["id"], cbool(c["mode"] == "safe"), coq(c["cfg"]), coq(c["src"]), c.get("rep") or "RString", st, ct, et))
         body.append(";\n".join(rows))
         body.append("].\nDefinition R := Eval vm_compute in report qcur cases.\nPrint R.")
         rc2, so, se = coq_eval("c18_cases_%d" % idx, "\n".join(body))
@@ -429,6 +571,7 @@ def main(tier, seed, replay=None):
     vh, proof = prepare(PROP_FILES, thorough=(tier == "thorough"))
     if replay:
         rp = json.load(open(replay))
+        tcases = []
         cases = []
         if "case" not in rp:
             # a correspondence replay (no-failing-input-found): re-run its first recorded case
@@ -438,7 +581,7 @@ def main(tier, seed, replay=None):
                     break
         if "case" in rp:
             c = rp["case"]
-            cases = [{"id": 0, "mode": c["mode"], "cfg": T(c["cfg"]), "src": T(c["src"]), "stream": "replay",
+            cases = [{"id": 0, "mode": c["mode"], "cfg": T(c["cfg"]), "src": T(c["src"]), "rep": c.get("rep"), "stream": "replay",
                       "table_path": c.get("table_path")}]
     else:
         cases = []
@@ -446,6 +589,8 @@ def main(tier, seed, replay=None):
         for s in seeds:
             cs = gen_cases(random.Random(s), tier if s == seed else "quick")
             for c in cs:
+                if s != seed and c["stream"] in ("arms", "corpus"):
+                    continue          # enumerated streams do not depend on the seed
                 c["id"] = len(cases)
                 cases.append(c)
     outs, results = run_cases(run, vh, cases)
@@ -456,11 +601,14 @@ def main(tier, seed, replay=None):
     def bump(h, k):
         hist[h][k] = hist[h].get(k, 0) + 1
 
+    arms_hit = {}
     for c in cases:
         o = outs.get(c["id"])
         code = results.get(c["id"])
         if code is None:
             continue
+        for a in arms_of(c):
+            arms_hit[a] = arms_hit.get(a, 0) + 1
         st, _, _, cls, effs = obs_terms(o)
         txt = source_text(c)
         bump("stream", c["stream"]); bump("mode", c["mode"]); bump("status", (o or {}).get("st", "none"))
@@ -472,7 +620,7 @@ def main(tier, seed, replay=None):
             seen.add(txt)
             if st == 0 and (cls or effs or (o or {}).get("shape") in ("closure", "tuple", "native")):
                 dist += 1
-        rec = {"case": {"mode": c["mode"], "cfg": c["cfg"], "src": c["src"], "text": txt, "table_path": c.get("table_path")},
+        rec = {"case": {"mode": c["mode"], "cfg": c["cfg"], "src": c["src"], "rep": c.get("rep"), "text": txt, "table_path": c.get("table_path")},
                "observed": o, "code": code}
         if code & 128:
             run.notes.append("model out of fuel on case %s" % txt[:200])
@@ -553,11 +701,15 @@ def main(tier, seed, replay=None):
                 + ("; thorough adds every target x every ordered pair of 9 wrappers x 3 configurations (exhaustive small scope) and 3 seeds" if tier == "thorough" else ""),
         "samples": [source_text(cases[i]) for i in range(0, len(cases), max(1, len(cases) // 8))][:8],
         "histograms": hist,
+        "case_arms_hit": arms_hit,
+        "case_arms_missed": [a for a in REQUIRED_ARMS if not arms_hit.get(a)],
         "guard_false_cases": guard_false, "status_incomparable_cases": incomparable,
         "quirk_overapproximation_notes": noted,
         "inventory_rows_checked": len(tcases),
         "exhaustive": False,
     })
+    if not replay and run.cov["case_arms_missed"]:
+        run.notes.append("generator gap: case arms not exercised: %s" % run.cov["case_arms_missed"])
     run.assumptions = [
         "values are abstracted to data / source text / library function (capability class) / tuple / closure; sets, arrays, numbers and operators are outside the model",
         "the capability class of each library function comes from the committed name table in harness/c18.go (reviewed by reading the Go bodies); the walk cannot see what a function does",
